@@ -30,6 +30,9 @@ func (v Val) IsSlice() bool { return v.Arr != nil }
 type deferred struct {
 	call *ast.CallExpr
 	info *types.Info
+	// operands of a deferred call that is not a closure are evaluated when the defer statement
+	// executes (Go semantics): receiver and arguments, by expression node
+	frozen map[ast.Expr]Val
 }
 
 type State struct {
@@ -114,6 +117,8 @@ type Exec struct {
 	assumed    map[string]bool
 	abstract   map[string]bool
 	specMode   bool
+	scanningGhost bool
+	frozen     map[ast.Expr]Val // pre-evaluated operands of the deferred call being run
 	specDeps   *[]string
 	specHeap   map[string]*Term
 	inQuant    int
